@@ -298,10 +298,16 @@ def plus_x(P, R, writers):
 def run(P, R, tier):
     # the class reported with the verdict depends on how the class rules read the account stamp
     from . import c11
-    c11.matcher(P, Remap(R, {'C11.FMT.1': 'C05.FMT.2'}))
+    c11.matcher(P, Remap(R, {'C11.FMT.1': 'C05.FMT.2', 'C11.GRD.2': 'C05.GRD.2', 'C11.GRD.3': 'C05.GRD.2'}))
     slices(P, R)
     w = account_writers(P, R)
     account_copy(P, R, w)
     accept_forms(P, R)
     plus_x(P, R, w)
+    # the login-type test may be written by exclusion only if a service's protocol is always a valid enumerator
+    from . import c06
+    c06.type_range(P, R, 'C05.TAB.2')
+    # texts are relayed verbatim only if the line is not edited on the way
+    from . import c08
+    c08.line_buffer_writes(P, R, 'C05.WMC.2')
     return EXPLANATION, ASSUMPTIONS
